@@ -320,7 +320,7 @@ class PathRunner(object):
         self.base = base
         self.rng = random.Random(seed)
         self.n = 0
-        self.stats = dict(provides=0, yielded=0, raised=0, nocontent=0, persists=0, datafiles=0,
+        self.stats = dict(provides=0, yielded=0, raised=0, nocontent=0, persists=0, datafiles=0, pairs=0,
                           layouts=0, random_layouts=0)
         kinds = {"text": sf.TextFileProvider, "raw": sf.RawFileProvider}
         self.fac = {}
@@ -369,30 +369,39 @@ class PathRunner(object):
         self.stats[ev["outcome"]] += 1
         return ev, (value if ev["outcome"] == "yielded" else None)
 
-    def persist(self, tree, lay, path, value, saveas, via):
+    def persist(self, tree, lay, path, value, saveas, via, seq="single"):
+        """Serialise `value` (seq == "single") or several values one after the other into the SAME output
+        directory (two specs persisting the same relative path) with Hydration.dehydrate; record every file
+        created or modified anywhere under W and what kind of object it is."""
         outdir = tree.paths[lay["out"]]
         sa = {"none": None, "file": "sv/x", "dir": "sv/"}[saveas]
-        for v in (value if isinstance(value, list) else [value]):
-            v.save_as = sa
+        values = [value] if seq == "single" else list(value)
+        for val in values:
+            for v in (val if isinstance(val, list) else [val]):
+                v.save_as = sa
         before = tree.snapshot()
-        b = dr.Broker()
-        b[persisted_component] = value
-        h = Hydration(outdir)
         AUDIT.start(guard=self.base)
         try:
-            h.dehydrate(persisted_component, b)
+            for val in values:
+                b = dr.Broker()
+                b[persisted_component] = val
+                Hydration(outdir).dehydrate(persisted_component, b)
         finally:
             aud = AUDIT.stop()
         after = tree.snapshot()
         bf, af = before[0], after[0]
-        written = [tree.loc(p) for p in sorted(af) if p not in bf or af[p] != bf[p]]
+        changed = [p for p in sorted(af) if p not in bf or af[p] != bf[p]]
+        written = [tree.loc(p) for p in changed]
+        wtypes = ["symlink" if af[p][3] else "file" for p in changed]
         dsts, blocked = destinations(aud, tree.W)
         written += blocked
+        wtypes += ["file"] * len(blocked)
         dsts += blocked
         self.stats["persists"] += 1
         self.stats["datafiles"] += sum(1 for w in written if "meta_data" not in w)
         tree.restore(before, after, outdir)
-        return dict(ev="persist", via=via, path=path, saveas=saveas, dsts=dsts, written=written)
+        self.stats["pairs"] += int(seq != "single")
+        return dict(ev="persist", via=via, path=path, saveas=saveas, seq=seq, dsts=dsts, written=written, wtypes=wtypes)
 
     def run_layout(self, lay, vias, saveas, tag):
         self.n += 1
@@ -412,9 +421,12 @@ class PathRunner(object):
                     v = rest[self.rng.randrange(len(rest))]
                     plan.append((v, "raw" if self.rng.randrange(3) == 0 else "text", "host"))
             did = set()
+            direct = {}
             for via, kind, ctxk in plan:
                 ev, val = self.provide(tree, lay, rootstr, path, via, kind, ctxk)
                 events.append(ev)
+                if val is not None and via == "direct":
+                    direct[kind] = val
                 if val is not None:
                     for sa in saveas:
                         # every save_as form for paths with several '..' (the ones destinations depend on),
@@ -424,6 +436,14 @@ class PathRunner(object):
                             continue
                         did.add((kind, sa))
                         events.append(self.persist(tree, lay, path, val, sa, via))
+                if via == plan[-1][0] and kind == plan[-1][1] and len(direct) == 2 and ".." not in path and (
+                        lay.get("allvias") or os.path.islink(rootstr + "/" + "/".join(path)) or not self.rng.randrange(6)):
+                    # the same file collected raw by one spec and as text by another: same relative path,
+                    # persisted one after the other, in both orders
+                    events.append(self.persist(tree, lay, path, [direct["raw"], direct["text"]], "none", "direct",
+                                               seq="raw-then-text"))
+                    events.append(self.persist(tree, lay, path, [direct["text"], direct["raw"]], "none", "direct",
+                                               seq="text-then-raw"))
                 if via in ("glob_file", "foreach_collect"):
                     sp = path[:-1] + ["*"]
                     if tuple(sp) not in seen_star:
@@ -512,7 +532,9 @@ class PathRunner(object):
 class DenyRunner(object):
     """The deny-list world W2/{root, out}: every declarative factory is evaluated by dr.run under a recording host
     context with the Hydration.make_persister observer, after insights.collect.apply_blacklist(cfg)."""
-    FILES = {"/x/ab": "1", "/x/my b": "2", "/x/c+(1).repo": "3", "/etc/hosts": "4", "/etc/fstab": "5"}
+    FILES = {"/x/ab": "1", "/x/my b": "2", "/x/c+(1).repo": "3", "/etc/hosts": "4", "/etc/fstab": "5",
+             "/boot/grub2/grub.cfg": "6", "/sys/kernel/debug/x86/pti_enabled": "7"}
+    SPECS = ("hosts", "fstab", "date", "grub2_cfg", "x86_pti_enabled", "wc_proc_1_mountinfo")
     SAVE_AS = {"none": None, "file": "sv/x", "dir": "sv/", "absfile": "/sv/x", "absdir": "/sv/", "bare": "sv"}
     LAY = dict(fs=[dict(k="dir", p=1, n="", abs=False, segs=[]), dict(k="dir", p=1, n="root", abs=False, segs=[]),
                    dict(k="dir", p=1, n="out", abs=False, segs=[])], root=["root"], out=3)
@@ -537,7 +559,7 @@ class DenyRunner(object):
             st = os.stat(p)
             self.ino[(st.st_dev, st.st_ino)] = rel
         self.stats = dict(collects=0, items=0, accessed=0, really_executed=0, docs=0, fpersists=0, datafiles=0,
-                          blocked=0, blank_items=0, meta_items=0, deep_items=0)
+                          blocked=0, blank_items=0, meta_items=0, deep_items=0, digit_specs=0)
         self.cache = {}
 
     def factory(self, fac, kind, saveas, items):
@@ -587,10 +609,10 @@ class DenyRunner(object):
     def snapshot(self):
         files = {}
         for d, dn, fn in os.walk(self.W):
-            for x in fn:
+            for x in fn + [y for y in dn if os.path.islink(os.path.join(d, y))]:
                 p = os.path.join(d, x)
                 st = os.lstat(p)
-                files[p] = (st.st_ino, st.st_size, st.st_mtime_ns)
+                files[p] = (st.st_ino, st.st_size, st.st_mtime_ns, os.path.islink(p))
         return files
 
     def run_case(self, case, kind):
@@ -603,7 +625,7 @@ class DenyRunner(object):
         cfg = {"files": [" ".join(w) for w in case["files"]], "commands": [" ".join(w) for w in case["commands"]],
                "components": list(case["comps"])}
         self.reset()
-        was = dict((n, dr.is_enabled(getattr(self.default, n))) for n in ("hosts", "fstab", "date"))
+        was = dict((n, dr.is_enabled(getattr(self.default, n))) for n in self.SPECS)
         ctx = RecHostContext(self.root)
         broker = dr.Broker()
         broker[HostContext] = ctx
@@ -650,12 +672,17 @@ class DenyRunner(object):
             self.stats["accessed"] += int(acc)
             self.stats["meta_items"] += int(it.get("cls") == "meta")
             self.stats["deep_items"] += int(it.get("cls") == "deep")
-        self.stats["really_executed"] += sum(1 for k, a, _ in aud if k == "exec" and any("/bin/echo" in x or "/bin/date" in x for x in a))
+        self.stats["really_executed"] += sum(1 for k, a, _ in aud if k == "exec" and any(
+            "/bin/echo" in x or "/bin/date" in x or "/usr/bin/wc" in x for x in a))
+        self.stats["digit_specs"] += int(any(it.get("cls") == "digit-name" for it in case["items"]))
         md = os.path.join(self.out, "meta_data")
         self.stats["docs"] += len(os.listdir(md)) if os.path.isdir(md) else 0
         # what the observer persisted, anywhere in the deny world
-        written = [os.path.relpath(p, self.W).split("/") for p in sorted(after) if p not in before or after[p] != before[p]]
+        changed = [p for p in sorted(after) if p not in before or after[p] != before[p]]
+        written = [os.path.relpath(p, self.W).split("/") for p in changed]
+        wtypes = ["symlink" if after[p][3] else "file" for p in changed]
         dsts, blocked = destinations(aud, self.W)
+        wtypes += ["file"] * len(blocked)
         self.stats["fpersists"] += 1
         self.stats["datafiles"] += sum(1 for w in written if "meta_data" not in w)
         self.stats["blocked"] += len(blocked)
@@ -670,8 +697,8 @@ class DenyRunner(object):
         self.stats["collects"] += 1
         return [dict(ev="collect", factory=fac, kind=kind, comp=case["comp"], files=case["files"],
                      commands=case["commands"], comps=case["comps"], items=items, stored=(ds in broker)),
-                dict(ev="fpersist", factory=fac, kind=kind, saveas=saveas, path=[], written=written + blocked,
-                     dsts=dsts + blocked)]
+                dict(ev="fpersist", factory=fac, kind=kind, saveas=saveas, seq="single", path=[],
+                     written=written + blocked, wtypes=wtypes, dsts=dsts + blocked)]
 
 
 def main():
